@@ -489,7 +489,11 @@ func (g *G) expr(want *m.Type, fuel int) *m.Expr {
 				}
 				return m.Lit("num", strconv.Itoa(g.intn("sel", 7)))
 			}
-			switch g.intn("widelazy", 5) {
+			switch g.intn("widelazy", 7) {
+			case 5, 6:
+				// a host function that recovers from the failure of its first (deferred) operand
+				g.stat("lz_try")
+				return g.call("lz_try", g.expr(want, fuel-1), g.expr(want, fuel-1))
 			case 0:
 				g.stat("lz_sel4")
 				return g.call("lz_sel4", sel(), g.expr(want, fuel-1), g.expr(want, fuel-1), g.expr(want, fuel-1))
